@@ -238,9 +238,13 @@ class BBAN(common.Base):
                     components[key] = value[: ranges[key].length]
 
             try:
-                return cls.from_components(
+                result = cls.from_components(
                     country_code, **{key.value: value for key, value in components.items()}
                 )
+                # Values provided by the caller can be of the wrong character class for their
+                # field. Such a BBAN is never handed out.
+                if result.isascii() and spec["regex"].match(result):
+                    return result
             except exceptions.SchwiftyException:
                 pass
         else:
